@@ -412,6 +412,7 @@ package authf
 //@   site ).Write#1 assert [C03] $2 == 0
 //@   site ).Write#2 assert [C03] $2 == 0
 //@   sites ).Write = 3
+//@   site ).Write#1 assert [C03] $1 == s32(len(st.VObjName))
 //
 //@ func (*TokenResponse).ResetDefault
 //@   requires st != nil
@@ -477,6 +478,7 @@ package authf
 //@   site ).Write#3 assert [C03] $2 == 0
 //@   site ).Write#4 assert [C03] $2 == 1
 //@   sites ).Write = 5
+//@   site ).Write#2 assert [C03] $1 == s32(len(st.MTokens))
 //@   site ).Write#3 assert [C03] $1 == k1
 //@   site ).Write#4 assert [C03] $1 == v1
 //
